@@ -67,6 +67,14 @@ func NewScheduleOptions(options ...ScheduleOption) *ScheduleOptions {
 	for _, option := range options {
 		option(opts)
 	}
+	// WithScheduleOptions 以整个结构体覆盖默认值：调用方未填写的字段仍需回落到默认值，
+	// 否则空 Reference 会让多个任务共用同一个任务键（后注册者被静默丢弃），空 Location 会让合法的 cron 表达式被拒绝。
+	if opts.Location == nil {
+		opts.Location = time.Local
+	}
+	if opts.Reference == "" {
+		opts.Reference = uuid.New().String()
+	}
 	return opts
 }
 
